@@ -72,6 +72,16 @@ def run(ctx):
         p = list(mods)
         r.shuffle(p)
         orders.append(p)
+    # the FORM of the client's import statement must not matter either: "from chartparse import m", "import chartparse.m",
+    # "import chartparse.m as m" - every module first in every form, every ordered pair in from-form, mixed forms in
+    # seeded permutations (the name bound by the statement must be the submodule itself)
+    for f in ("f", "d", "a"):
+        orders += [[f"{f}:{m}"] for m in mods]
+    orders += [[f"f:{a}", f"f:{b}"] for a, b in itertools.permutations(mods, 2)]
+    for _ in range(nperm):
+        p = list(mods)
+        r.shuffle(p)
+        orders.append([r.choice(["", "f:", "d:", "a:"]) + m for m in p])
     if model_cex:
         orders.append(model_cex)  # a model-level counterexample is reproduced before it is reported
     results, full = _records(ctx, orders, mods)
@@ -90,7 +100,8 @@ def run(ctx):
         else:
             tab_d, ref_d = "", ""
         recs.append({"id": f"o{k}", "props": ["C20"], "order": res_["order"], "events": res_["events"],
-                     "ok": res_["ok"], "table": tab_d, "ref": ref_d, "error": res_["error"]})
+                     "ok": res_["ok"], "table": tab_d, "ref": ref_d, "error": res_["error"],
+                     "stmts": [(f + ":" if f else "") + m for f, m in zip(res_.get("forms", []), res_["order"])]})
     ctx.sample({"order": results[0]["order"], "events": results[0]["events"], "ok": results[0]["ok"],
                 "error": results[0]["error"]})
     ctx.sample({"order": results[-1]["order"], "ok": results[-1]["ok"], "events": results[-1]["events"][:8]})
@@ -104,7 +115,7 @@ def run(ctx):
                 ctx.extra["drift_examples"].append({"order": rec["order"], "clause": clause, "events": rec["events"]})
             continue
         first = rec["order"][0] if clause == "import-order-fails" and len(rec["order"]) <= 2 else ""
-        ctx.violation(clause, {"kind": "import-order", "order": rec["order"], "error": rec["error"]},
+        ctx.violation(clause, {"kind": "import-order", "order": rec.get("stmts") or rec["order"], "error": rec["error"]},
                       key=clause + "|" + (rec["error"].split(":")[0] if rec["error"] else ""))
     if model_cex is not None and ctx.drift == 0 and not ctx.violations:
         ctx.note("MODEL-DRIFT: MC_Imports reports a failing order that the real interpreter does not reproduce")
